@@ -383,7 +383,7 @@ pub fn configs(prop: &str, thorough: bool) -> Vec<(Cfg, Option<usize>)> {
                 c.senders = vec![];
                 c.recipients = vec![3];
                 c.owners = vec![0, 1];
-                c.spenders = if thorough { vec![0, 1, 2] } else { vec![1, 2] };
+                c.spenders = vec![1, 2];
                 c.amounts = vec![0, 1, 2];
                 c.exps = vec![ExpA::Unset, ExpA::Never, ExpA::H(H0 + 1), ExpA::T(T0 + 2 * DT)];
                 c.grant_cap = Some(2);
@@ -510,7 +510,7 @@ pub fn configs(prop: &str, thorough: bool) -> Vec<(Cfg, Option<usize>)> {
                 c.props = p.clone();
                 c.initial = vec![(0, 1), (1, 1)];
                 c.recipients = vec![3];
-                c.owners = vec![0, 1, 2];
+                c.owners = vec![0, 1];
                 c.spenders = vec![0, 1, 2, 3];
                 c.amounts = vec![1];
                 c.exps = vec![ExpA::Unset, ExpA::H(H0 + 1)];
